@@ -1292,6 +1292,27 @@ def registry_provenance(ctx):
             prov[getattr(plugin, "__name__", type(plugin).__name__)] = names
     declared = {n for names in prov.values() for n in names}
     registry = {n for n, _ in settings.Settings().items()}
+    # rename chains: can an old name be reached in two steps (old -> mid -> new)?  Only if some rename target or some
+    # declared old name is itself declared as an old name by another setting / is a current name.
+    reg = dict(settings.Settings().items())
+    decl = [(n, old, exp) for n, s_ in reg.items() for old, exp in s_.oldNames]
+    oldnames = [old for _, old, _ in decl]
+    chain = {
+        "declared_old_names": len(decl),
+        "old_names_that_are_current_names": sorted(set(oldnames) & set(reg)),
+        "old_names_declared_twice": sorted({o for o in oldnames if oldnames.count(o) > 1}),
+        "targets_that_are_not_current": sorted({n for n, _, _ in decl} - set(reg)),
+        "two_step_chains": sorted((old, mid, new) for new, mid, _ in decl for mid2, old, _ in decl if mid2 == mid and mid not in reg),
+        "expiring": sorted((old, str(exp)) for _, old, exp in decl if exp is not None),
+    }
+    chain["fact"] = ("every rename target is a current setting and no old name is a current name or declared twice: a chain "
+                     "old -> mid -> new cannot occur in this registry, so the single-step renamer is complete here "
+                     "(theorem rename_single_step_complete)")
+    ctx.extra["rename_chains"] = chain
+    if chain["old_names_that_are_current_names"] or chain["old_names_declared_twice"] or chain["targets_that_are_not_current"] \
+            or chain["two_step_chains"]:
+        ctx.fail("rename-chain-in-registry", "renamed settings are accepted under their old names and land on the new ones "
+                 "(single-step renaming is complete only without chains)", chain)
     ctx.extra["registry_provenance"] = {k: {"count": len(v), "settings": v} for k, v in prov.items()}
     ctx.extra["registry_total"] = len(registry)
     ctx.extra["registry_from_plugins"] = len(declared) - len(prov["framework (armi.settings.fwSettings)"])
